@@ -31,13 +31,33 @@ class Ctx:
 ALL_CTX = [Ctx(r, i, p, d) for r in ("server", "client") for i in (0, 1) for p in (0, 1) for d in (1, 0)]
 
 
+def _no_pformat(obj, *a, **kw):
+    return "<pformat skipped by vf.c02_monitor>"
+
+
 class Env:
     """One world per worker process, many endpoints in it."""
 
     def __init__(self):
         self.ws = WS()
+        self.settle = F.make_settle(self.ws.world)
+        self.ws.world._c02_settle = self.settle
         self.factories = {}
         self.ncases = 0
+        self._pformat = None
+
+    def fast_logging(self, on):
+        """``WebSocketProtocol._connectionMade`` / ``startHandshake`` pretty-print all protocol options resp. the
+        transport details for a DEBUG log line on every connection (eagerly, ~40% of the cost of a case).  For the
+        exhaustive sweep the formatter is replaced by a constant; nothing but the text of that log line (discarded:
+        the log level is above debug) depends on it.  The corpora and generated parts run with the original."""
+        import autobahn.websocket.protocol as P
+        if on and self._pformat is None:
+            self._pformat = P.pformat
+            P.pformat = _no_pformat
+        elif not on and self._pformat is not None:
+            P.pformat = self._pformat
+            self._pformat = None
 
     def factory(self, role, pmce, drop):
         k = (role, pmce, drop)
@@ -86,6 +106,7 @@ class Env:
             F.flush_world(self.ws)
 
     def close(self):
+        self.fast_logging(False)
         F.flush_world(self.ws)
         w = self.ws.world
         if hasattr(w, "close"):
@@ -103,7 +124,10 @@ class Obs:
         self.closes = []        # (status|None, reason bytes, chron idx)
         self.drop = None        # (kind, idx)
         self.onclose = None
-        self.escaped = []
+        self.escaped = []       # repr of every exception that reached the framework during this case
+        self.escaped_info = []  # (exception type name, chron idx)
+        self._nesc = len(ep.escaped)
+        self._wesc = len(ep.world.escaped)
         self.other_frames = 0
         self.wbuf = b""
 
@@ -143,8 +167,20 @@ class Obs:
                     self.drop = (e[1], i)
             elif t == "escaped":
                 self.escaped.append(e[1])
+                x = self.ep.escaped[self._nesc] if self._nesc < len(self.ep.escaped) else None
+                self._nesc += 1
+                self.escaped_info.append((_exc_name(x), i))
             i += 1
         self.cur = n
+        # exceptions that reached the event loop / a timer instead of the transport's read callback (asyncio: the
+        # adapter processes received octets in a future callback); one case at a time runs in this world
+        we = self.ep.world.escaped
+        while self._wesc < len(we):
+            who, x = we[self._wesc]
+            self._wesc += 1
+            if who in ("loop", "timer"):
+                self.escaped.append(repr(x))
+                self.escaped_info.append((_exc_name(x), n))
 
     def failure(self):
         """None | (class, chron idx): 'drop' = transport dropped without a close frame written before;
@@ -166,6 +202,14 @@ class Obs:
         return None
 
 
+def _exc_name(x):
+    exc = getattr(x, "exc", None)
+    if exc is None:
+        return "unknown"
+    t = type(exc)
+    return t.__name__ if t.__module__ in ("builtins", "__main__") else "%s.%s" % (t.__module__, t.__name__)
+
+
 def _short(ev):
     if ev[0] == "message":
         return ["message", bool(ev[1]), len(ev[2]), ev[2][:24].hex()]
@@ -180,10 +224,24 @@ class Case:
         self.replay, self.label = replay, label
         self.bad = False
 
-    def violation(self, what, text, k, obs, extra=None):
+    def escaped_violation(self, k, obs):
+        """exception out of the read callback.  Decompressor errors are keyed by mechanism only (the frame that
+        carries the undecodable octets may follow ANY violation in closing-handshake mode): phase = was the
+        connection still open, or had the implementation already failed it."""
+        name, idx = obs.escaped_info[0]
+        f = obs.failure()
+        text = "exception reached the framework: %s" % obs.escaped[0][:300]
+        if name == "zlib.error" and self.ctx.pmce:
+            phase = "after-failure" if (f is not None and f[1] < idx) else "open"
+            self.violation("escaped", text, k, obs, key="C02/pmce/escaped/zlib-error/" + phase)
+        else:
+            self.violation("escaped/" + name, text, k, obs)
+
+    def violation(self, what, text, k, obs, extra=None, key=None):
         tl = self.tl
         clause = tl.failure.clause if tl.failure else ("valid-close" if tl.close else "no-violation")
-        key = "C02/%s/%s/%s" % (self.ctx.key(), what, clause)
+        if key is None:
+            key = "C02/%s/%s/%s" % (self.ctx.key(), what, clause)
         self.bad = True
         f = obs.failure()
         detail = {"ctx": self.ctx.name(), "label": self.label, "stream_len": len(self.stream),
@@ -203,7 +261,7 @@ class Case:
         env, R, tl, ctx = self.env, self.R, self.tl, self.ctx
         ep = env.open(ctx)
         obs = Obs(ep)
-        settle = env.ws.world.settle
+        settle = env.settle
         k = 0
         try:
             for c in chunks:
@@ -232,7 +290,7 @@ class Case:
                 settle()
                 obs.update()
             if obs.escaped and not self.bad:
-                self.violation("escaped", "exception reached the framework: %s" % obs.escaped[0][:300], k, obs)
+                self.escaped_violation(k, obs)
             reason = obs.impl_reason()
             if reason and REASON_HOOK is not None and not self.bad:
                 REASON_HOOK(R, ctx, tl, reason)
@@ -252,10 +310,14 @@ class Case:
         obs.update()
         R.count("prefix_checks")
         if obs.escaped:
-            self.violation("escaped", "exception reached the framework: %s" % obs.escaped[0][:300], k, obs)
+            self.escaped_violation(k, obs)
             return
         grey = tl.grey_from is not None and k > tl.grey_from
         exp = tl.due(tl.grey_from if grey else k)
+        # events that fall due inside the failure window (control frames interleaved in a compressed text message
+        # after the frame in which the inflated text became invalid): delivered or not, depending on whether the
+        # receiver had already noticed - mandatory are those due up to the earliest decidable offset
+        nmand = len(exp) if tl.failure is None else sum(1 for (d, _) in tl.events if d <= min(k, tl.failure.earliest))
         f = obs.failure()
         close_due = tl.close is not None and tl.close[0] <= k
         if close_due:
@@ -272,7 +334,8 @@ class Case:
                         tl.close[1], f[0]), k, obs)
                     return
         if grey:
-            if obs.deliv[:len(exp)] != exp:
+            got = obs.deliv[:len(exp)]
+            if got != exp[:len(got)] or len(got) < (len(exp) if tl.failure is None else nmand):
                 self.violation("delivery-mismatch", "deliveries before the grey zone differ from the reference", k, obs)
             return
         status = tl.failure_status(k)
@@ -308,8 +371,9 @@ class Case:
                 R.count("outcome/%s/%s" % ("drop" if ctx.drop else "close", f[0] if not ctx.drop else tl.failure.kind))
         # deliveries
         before = obs.deliv if fidx is None else [d for d, i in zip(obs.deliv, obs.deliv_idx) if i < fidx]
-        if before != exp:
-            if len(before) < len(exp) and before == exp[:len(before)]:
+        lo = len(exp) if fidx is None else nmand     # a receiver that has not failed delivers everything that is due
+        if not (lo <= len(before) <= len(exp) and before == exp[:len(before)]):
+            if len(before) < lo and before == exp[:len(before)]:
                 sub = "missing-" + exp[len(before)][0]
             elif len(before) > len(exp) and before[:len(exp)] == exp:
                 sub = "extra-" + before[len(exp)][0]
@@ -317,6 +381,11 @@ class Case:
                 sub = "different"
             self.violation("delivery-mismatch/" + sub, "deliveries differ from the events RFC 6455 assigns to the well-formed prefix", k, obs)
             return
+        if final and nmand < len(exp):
+            # events inside the failure window of a compressed text message: which way the implementation went
+            R.count("events_in_failure_window_checked", len(exp) - nmand)
+            R.count("events_in_failure_window_delivered", len(before) - nmand)
+        exp = exp[:len(before)]
         if fidx is not None:
             after = [d for d, i in zip(obs.deliv, obs.deliv_idx) if i > fidx]
             if ctx.drop and after:
@@ -337,3 +406,6 @@ class Case:
             R.count("deliveries_compared", len(exp))
             R.count("pongs_compared", len(pings))
             R.count("messages_compared", sum(1 for e in exp if e[0] == "message"))
+            if tl.compressed_due:
+                last = tl.events[len(exp) - 1][0] if exp else -1
+                R.count("compressed_messages_compared", sum(1 for d in tl.compressed_due if d <= last))
